@@ -3,8 +3,9 @@ package main
 // The system under observation: a REAL gqlgen handler.Server with the REAL
 // AutomaticPersistedQuery extension in front of a hand-written executable
 // schema, a Cache decorator that logs and serialises the cache operations
-// (and lets the harness read the contents of the real map / real LRU), and
-// two spy mutators around the extension.
+// (the real map / real LRU is observed ONLY through the public Get / Add of
+// graphql.Cache, never through its internals), and two spy mutators around
+// the extension.
 
 import (
 	"bytes"
@@ -14,11 +15,9 @@ import (
 	"io"
 	"net/http"
 	"net/http/httptest"
-	"reflect"
 	"sort"
 	"strconv"
 	"sync"
-	"unsafe"
 
 	"github.com/vektah/gqlparser/v2"
 	"github.com/vektah/gqlparser/v2/ast"
@@ -45,8 +44,9 @@ type cacheOp struct {
 // ent is one cache entry.
 type ent struct{ Key, Val string }
 
-// snapshot is the content of the real cache, with the LRU recency order
-// (most recently used first; nil for the map).
+// snapshot is the observed binding of the real cache (see logCache.known).
+// Order is always empty: a recency order is not observable through Get / Add
+// without disturbing it (it is identified by replay, see lru.go).
 type snapshot struct {
 	Ents  []ent
 	Order []string
@@ -73,15 +73,28 @@ func obsOf(ctx context.Context) *obs {
 	return o
 }
 
-// logCache decorates the real cache. Its mutex is held across the inner
-// operation, so the order of its log IS the order of the operations.
+// logCache decorates the real cache and is the ONLY way the harness looks at
+// it: the public graphql.Cache API (Get / Add). Nothing here depends on how
+// graphql/handler/lru (or MapCache) is implemented. Its mutex is held across
+// the inner operation, so the order of its log IS the order of the operations.
+//
+// known is the OBSERVED BINDING: what the public API last showed the cache to
+// bind (Add(k,v) and a Get hit (k,v) set known[k] = v, a Get miss forgets k).
+// It is a summary of the observations, not a model of the cache: an entry the
+// cache has silently evicted stays in it until a Get shows the miss.
 type logCache struct {
 	mu    sync.Mutex
 	inner graphql.Cache[string]
 	seq   int64
-	last  *snapshot
-	snapf func() (*snapshot, error)
-	err   error
+	known map[string]string
+	// a Get missed a key the API had last shown as bound: an eviction became visible
+	evictionsSeen int64
+	gone          map[string]bool // keys seen evicted and not Added again since
+	reAdded       int64           // Adds of a key that had been seen evicted
+}
+
+func newLogCache(inner graphql.Cache[string]) *logCache {
+	return &logCache{inner: inner, known: map[string]string{}, gone: map[string]bool{}}
 }
 
 func (c *logCache) Get(ctx context.Context, key string) (string, bool) {
@@ -99,21 +112,43 @@ func (c *logCache) Add(ctx context.Context, key, value string) {
 	c.record(ctx, cacheOp{Op: "add", Key: key, Val: value, Hit: true})
 }
 
+func (c *logCache) snap() *snapshot {
+	s := &snapshot{Order: []string{}}
+	for k, v := range c.known {
+		s.Ents = append(s.Ents, ent{k, v})
+	}
+	sort.Slice(s.Ents, func(i, j int) bool { return s.Ents[i].Key < s.Ents[j].Key })
+	return s
+}
+
 func (c *logCache) record(ctx context.Context, op cacheOp) {
 	c.seq++
-	prev := c.last
-	if prev == nil {
-		prev = &snapshot{Order: []string{}}
+	o := obsOf(ctx)
+	var prev *snapshot
+	if o != nil {
+		prev = c.snap()
 	}
-	s, err := c.snapf()
-	if err != nil {
-		c.err = err
+	old, had := c.known[op.Key]
+	switch {
+	case op.Op == "add":
+		// a registration that changes what the cache is known to bind
+		op.Chg = !had || old != op.Val
+		c.known[op.Key] = op.Val
+		if c.gone[op.Key] {
+			c.reAdded++
+			delete(c.gone, op.Key)
+		}
+	case op.Hit:
+		c.known[op.Key] = op.Val
+	default:
+		if had {
+			c.evictionsSeen++
+			c.gone[op.Key] = true
+		}
+		delete(c.known, op.Key)
 	}
-	c.last = s
-	if s != nil {
-		op.Chg = !sameEnts(prev.Ents, s.Ents)
-	}
-	if o := obsOf(ctx); o != nil {
+	if o != nil {
+		s := c.snap()
 		o.mu.Lock()
 		if len(o.Ops) == 0 {
 			o.PreSnap = prev
@@ -125,77 +160,11 @@ func (c *logCache) record(ctx context.Context, op cacheOp) {
 	}
 }
 
-func sameEnts(a, b []ent) bool {
-	if len(a) != len(b) {
-		return false
-	}
-	for i := range a {
-		if a[i] != b[i] {
-			return false
-		}
-	}
-	return true
-}
-
-// Now returns the current sequence number and content (consistent pair).
+// Now returns the current sequence number and observed binding (consistent pair).
 func (c *logCache) Now() (int64, *snapshot, error) {
 	c.mu.Lock()
 	defer c.mu.Unlock()
-	if c.err != nil {
-		return 0, nil, c.err
-	}
-	s, err := c.snapf()
-	return c.seq, s, err
-}
-
-func snapMap(m graphql.MapCache[string]) func() (*snapshot, error) {
-	return func() (*snapshot, error) {
-		s := &snapshot{Order: []string{}}
-		for k, v := range m {
-			s.Ents = append(s.Ents, ent{k, v})
-		}
-		sort.Slice(s.Ents, func(i, j int) bool { return s.Ents[i].Key < s.Ents[j].Key })
-		return s, nil
-	}
-}
-
-// snapLRU reads the real graphql/handler/lru cache without disturbing its
-// recency order: the wrapped hashicorp cache sits in the unexported first
-// field; Keys() lists oldest -> newest and Peek() does not refresh.
-func snapLRU(l *lru.LRU[string]) (func() (*snapshot, error), error) {
-	rv := reflect.ValueOf(l).Elem()
-	if rv.Kind() != reflect.Struct || rv.NumField() < 1 || rv.Field(0).Kind() != reflect.Ptr {
-		return nil, fmt.Errorf("lru.LRU layout changed: %s", rv.Type())
-	}
-	f := rv.Field(0)
-	inner := reflect.NewAt(f.Type(), unsafe.Pointer(f.UnsafeAddr())).Elem()
-	keys := inner.MethodByName("Keys")
-	peek := inner.MethodByName("Peek")
-	if !keys.IsValid() || !peek.IsValid() {
-		return nil, fmt.Errorf("wrapped LRU %s has no Keys/Peek", f.Type())
-	}
-	return func() (s *snapshot, err error) {
-		defer func() {
-			if r := recover(); r != nil {
-				err = fmt.Errorf("reading the LRU by reflection: %v", r)
-			}
-		}()
-		ks, ok := keys.Call(nil)[0].Interface().([]string)
-		if !ok {
-			return nil, fmt.Errorf("Keys() does not return []string")
-		}
-		s = &snapshot{Order: []string{}}
-		for i := len(ks) - 1; i >= 0; i-- {
-			out := peek.Call([]reflect.Value{reflect.ValueOf(ks[i])})
-			if !out[1].Bool() {
-				return nil, fmt.Errorf("Peek(%q) misses a listed key", ks[i])
-			}
-			s.Order = append(s.Order, ks[i])
-			s.Ents = append(s.Ents, ent{ks[i], out[0].String()})
-		}
-		sort.Slice(s.Ents, func(i, j int) bool { return s.Ents[i].Key < s.Ents[j].Key })
-		return s, nil
-	}, nil
+	return c.seq, c.snap(), nil
 }
 
 // spy is a HandlerExtension + OperationParameterMutator that records whether
@@ -245,18 +214,12 @@ type rigOpts struct {
 
 func newRig(o rigOpts) (*rig, error) {
 	r := &rig{Kind: o.Kind, Cap: o.Cap, QCache: o.QCache}
-	lc := &logCache{}
+	var lc *logCache
 	switch o.Kind {
 	case "map":
-		m := graphql.MapCache[string]{}
-		lc.inner, lc.snapf = m, snapMap(m)
+		lc = newLogCache(graphql.MapCache[string]{})
 	case "lru":
-		l := lru.New[string](o.Cap)
-		f, err := snapLRU(l)
-		if err != nil {
-			return nil, err
-		}
-		lc.inner, lc.snapf = l, f
+		lc = newLogCache(lru.New[string](o.Cap))
 	default:
 		return nil, fmt.Errorf("unknown cache kind %q", o.Kind)
 	}
